@@ -293,7 +293,13 @@ func (lv litValue) matches(got reflect.Value) (bool, string) {
 		if !ok || u == nil {
 			return false, fmt.Sprintf("got %#v", g)
 		}
-		return u.String() == lv.Str, fmt.Sprintf("got %q want %q", u.String(), lv.Str)
+		// the same IRI: as written, or in URL-normal form (scheme case,
+		// escaping) - the lexical form denotes the same resource
+		want := lv.Str
+		if pu, err := url.Parse(lv.Str); err == nil {
+			want = pu.String()
+		}
+		return u.String() == lv.Str || u.String() == want, fmt.Sprintf("got %q want %q", u.String(), lv.Str)
 	case "XMLSchemaDateTime":
 		t, ok := g.(time.Time)
 		if !ok {
@@ -350,7 +356,11 @@ func nonCanonicalSamples(kind string) []interface{} {
 func baseSamples(k string) []interface{} {
 	switch k {
 	case "XMLSchemaString":
-		return []interface{}{"plain text", "", "two words & <b>markup</b>", "unicode é世界", "no-scheme/path"}
+		// text, among it text with something net/url takes for a scheme (a
+		// subject line, a content warning, base83) and strings that are IRIs
+		// in a form other than the one they would be written back in
+		return []interface{}{"plain text", "", "two words & <b>markup</b>", "unicode é世界", "no-scheme/path",
+			"Re: hello", "CW: spoilers #tag y", "Note: 100% sure?", "LKO2:N%2Tw=w]~RB", "a:b", "HTTPS://Example.com/Path", "x-y.z+1:rest of the line"}
 	case "RFCBcp47":
 		return []interface{}{"en", "en-US", "zh-Hant-TW"}
 	case "RFCRfc2045":
@@ -363,7 +373,7 @@ func baseSamples(k string) []interface{} {
 		return []interface{}{"2014-12-31T23:00:00-08:00", "2000-02-29T12:30:45Z", "1999-12-31T23:59:59+14:00", "2024-03-10T02:30:00-12:00",
 			"1970-01-01T00:00:00Z", "2038-01-19T03:14:08Z", "0001-01-01T00:00:00Z", "9999-12-31T23:59:59Z", "2016-05-10T00:00:00+05:45"}
 	case "XMLSchemaDuration":
-		return []interface{}{"PT5S", "PT2H", "P1D", "P1Y", "P1M", "P1Y2M3DT4H5M6S", "-PT30M", "-P1Y1M1DT1H1M1S", "P11M29DT23H59M59S", "PT1M", "P289Y", "P1DT1S",
+		return []interface{}{"PT0S", "PT5S", "PT2H", "P1D", "P1Y", "P1M", "P1Y2M3DT4H5M6S", "-PT30M", "-P1Y1M1DT1H1M1S", "P11M29DT23H59M59S", "PT1M", "P289Y", "P1DT1S",
 			// sign x {date part only, time part only, both}; single components
 			"-P1D", "-P1Y", "-P1M", "-P2Y3M", "-P3M4D", "-P1Y2M3D", "-PT1S", "-PT2H", "-PT1M", "-P1DT1S", "-P1YT1H", "P2Y3M", "P3M4D", "P29D", "PT23H", "PT59M59S", "PT1H1S"}
 	case "XMLSchemaBoolean":
@@ -449,6 +459,9 @@ func randomSample(k string, g *prng.R) interface{} {
 			Y, M, D = 0, 0, 0
 		}
 		if Y+M+D+H+Mi+S == 0 {
+			if g.Chance(1, 3) {
+				return "PT0S" // zero is a whole-second duration too
+			}
 			if g.Bool() {
 				S = 1 + g.Intn(59)
 			} else {
